@@ -365,6 +365,18 @@ def check_subs(ctx: core.Ctx, g: GenInfo):
             for b in bad:
                 ctx.error(f"{where}: substitution entry `{b}` is not an enumerated idiom")
             continue
+        # substitution is sequential: the pair that introduces the bare identifier `dt` must come after every pair whose source is a user symbol
+        # (a control / calibration symbol that is itself spelled `dt` would otherwise capture the freshly introduced Symbol("dt"))
+        if need_dt and dt_ok:
+            order = []
+            for sname in subs_names:
+                for v in local_defs.get(sname, []):
+                    for comp in parts_of(v):
+                        order.append("dt" if isinstance(comp, ast.List) and comp.elts else ("comp" if isinstance(comp, ast.ListComp) else "other"))
+            last_ok = bool(order) and order[-1] == "dt" and order.count("dt") == 1
+            ctx.oblige("SUBS", where, f"substitution order {order}", last_ok, file=CPPF, func=f"{cls}.{fname}", construct="subs_set order",
+                       msg="the time-step pair (model dt -> Symbol('dt')) is not the last entry of the sequential substitution: a control / calibration symbol "
+                           "spelled `dt` then captures the freshly introduced Symbol('dt')", line=fn.lineno)
         n += 1
         wantfmt = {r: p + "{}()" for r, p in want.items()}
         ctx.oblige("SUBS", where, f"substitutes {got}", got == wantfmt, file=CPPF, func=f"{cls}.{fname}", construct="subs_set roles/prefixes",
